@@ -145,7 +145,14 @@ pub fn explore_tree(t: &Tree, init_x: Option<u8>, cap: usize, sub: &mut Part) {
         sub.traces += 1;
         match out {
             Outcome::Truncated => sub.truncated += 1,
-            Outcome::Diverged(m) => sub.machinery(format!("tape divergence: {}", m)),
+            // the same configuration object is executed once per environment; an execution that does not
+            // ask the environment the same questions again when given the same answers is a configuration that
+            // changed through being run (every execution of a configuration is init, require, execute)
+            Outcome::Diverged(m) => sub.violate(
+                format!("C03 constructs={} configuration-behaves-differently-when-run-again", shape_class(t)),
+                format!("tree {:?}, caller X = {:?}: re-running the configuration under the environment answers {:?} of an earlier execution: {}", t, init_x, prefix, m),
+                json!({"tree": format!("{:?}", t), "init_x": init_x, "tape": prefix, "cap": cap, "rerun": true}),
+            ),
             Outcome::Done((r, tr, _)) => {
                 if sub.outcomes.len() < 64 {
                     sub.outcome(format!("{}:{}", if r.is_ok() { "ok" } else { "err" }, tr.len().min(12)));
@@ -217,9 +224,17 @@ pub fn replay(case: &Value) -> Result<Vec<(String, String)>, String> {
     for thorough in [false, true] {
         let (trees, _) = tree_set(thorough);
         if let Some(t) = trees.iter().find(|t| format!("{:?}", t) == want) {
+            // the recorded execution alone, on a freshly built configuration
             let cfg = explorer_cfg(cap);
             let (out, log) = tape::run_once(&cfg, &tape, || run_tree(t, init_x));
-            return Ok(check(t, init_x, &out, &log).into_iter().collect());
+            let alone: Vec<(String, String)> = check(t, init_x, &out, &log).into_iter().collect();
+            if !alone.is_empty() && case["rerun"].as_bool() != Some(true) {
+                return Ok(alone);
+            }
+            // it may depend on the executions of the same configuration object before it: the whole tree again
+            let mut sub = Part::new("x");
+            explore_tree(t, init_x, cap, &mut sub);
+            return Ok(sub.violations.iter().map(|v| (v.sig.clone(), v.detail.clone())).collect());
         }
     }
     Err("tree not found".into())
